@@ -201,9 +201,9 @@ def find_fns(src, prefix):
         params = []
         for p in m.group(3).split(","):
             p = p.strip()
-            if not p:
-                continue
-            n, t = [v.strip() for v in p.split(":")]
+            if not p or ":" not in p:
+                continue      # `&self`: methods are never in the WANTED list
+            n, t = [v.strip() for v in p.split(":", 1)]
             params.append((n.replace("mut ", ""), ALIASES.get(t, t)))
         generic = m.group(2) is not None
         yield prefix + m.group(1), params, ALIASES.get(m.group(4), m.group(4)), src[i:j + 1], generic
@@ -410,7 +410,7 @@ class Tr:
             return self.bindall([(c, pc)], lambda x: "(if %s then %s else None)" % (x[0], orr)), False, tr
         if k == "call":
             name = e[1]
-            if name in ("i64::from", "i32::from"):
+            if re.match(r"^[iu](8|16|32|64)::from$", name):
                 t, pure, ty = self.emit(e[2][0], env)
                 return t, pure, name.split("::")[0]
             fn = self.resolve(name)
@@ -459,17 +459,21 @@ Local Open Scope Z_scope.
 WANTED = ["left_shift", "left_shift64", "bound",
           "fdot6_from_i32", "fdot6_from_f32", "fdot6_floor", "fdot6_ceil", "fdot6_round", "fdot6_to_fdot16", "fdot6_can_convert_to_fdot16",
           "fdot6_small_scale", "fdot8_from_fdot16", "fdot16_floor_to_i32", "fdot16_ceil_to_i32", "fdot16_round_to_i32",
-          "fdot16_mul", "fdot16_div", "fdot16_fast_div", "fdot6_div"]
+          "fdot16_mul", "fdot16_div", "fdot16_fast_div", "fdot6_div", "premultiply_u8"]
 
 
 def gen_fixed(repo, outdir, results):
-    out = HEADER % "src/fixed_point.rs, src/math.rs"
+    out = HEADER % "src/fixed_point.rs, src/math.rs, src/color.rs"
     try:
         fp = open(os.path.join(repo, "src/fixed_point.rs")).read()
         mt = open(os.path.join(repo, "src/math.rs")).read()
         decls = []    # (coq name, params, ret, body, generic, module)
         for f in find_fns(mt, ""):
             if f[0] in ("left_shift", "left_shift64", "bound"):
+                decls.append(f + ("",))
+        co = open(os.path.join(repo, "src/color.rs")).read()
+        for f in find_fns(co, ""):
+            if f[0] == "premultiply_u8":
                 decls.append(f + ("",))
         consts = {}
         for mod, body in modules(fp):
@@ -518,7 +522,7 @@ def gen_fixed(repo, outdir, results):
         out += "\nDefinition fixed_gen_ok : bool := true.\n"
         results.append(("fixed-point", True, "%d functions (%s pure)" % (len(done), sum(1 for _, p in done if p))))
     except (TErr, KeyError, IndexError, ValueError) as ex:
-        out = HEADER % "src/fixed_point.rs, src/math.rs"
+        out = HEADER % "src/fixed_point.rs, src/math.rs, src/color.rs"
         out += "(* translation failed: %s *)\nDefinition fixed_gen_ok : bool := false.\n" % str(ex).replace("*)", "* )")
         results.append(("fixed-point", False, str(ex)))
     from translate import write_if_changed
